@@ -182,15 +182,44 @@ Fixpoint get_field (sch : schema) (m : message) (path : list string) : option rf
 (* str.strip() *)
 Definition pystrip (s : string) : string := strip_by is_pyspace s.
 
+(* the attribute path of the request that leads to the field: every segment is the Field.name of its own field
+   (the proto name, with an underscore when it is reserved and the owning message is proto-plus).
+   The generator computes it as get_field(path[:1]).name, get_field(path[:2]).name, ...: the same walk, one name per step. *)
+Fixpoint attr_path (sch : schema) (m : message) (path : list string) : option (list string) :=
+  match path with
+  | [] => None
+  | first :: rest =>
+      match msg_field m (if reserved first && m_proto_plus m then first ++ "_" else first) with
+      | None => None
+      | Some cursor =>
+          let nm := wrapper_name (m_proto_plus m) cursor in
+          match rest with
+          | [] => Some [nm]
+          | _ :: _ =>
+              if f_repeated cursor then None else
+              match f_type cursor with
+              | TMessage fqn => match assoc fqn sch with
+                                | Some m' => match attr_path sch m' rest with
+                                             | Some ks => Some (nm :: ks)
+                                             | None => None
+                                             end
+                                | None => None
+                                end
+              | _ => None
+              end
+          end
+      end
+  end.
+
 (* the body of filter_fields for one comma-separated piece: None = KeyError, Some None = skipped *)
 Definition sig_item (sch : schema) (input : message) (cross : bool) (piece : string)
   : option (option (string * rfield)) :=
-  let name := pystrip piece in
-  match get_field sch input (segments name) with
-  | None => None
-  | Some rf =>
-      let key := if String.eqb (r_name rf) (r_pb rf) then name else name ++ "_" in
+  let path := segments (pystrip piece) in
+  match get_field sch input path, attr_path sch input path with
+  | Some rf, Some ks =>
+      let key := sjoin "." ks in
       if cross && negb (r_primitive rf) then Some None else Some (Some (key, rf))
+  | _, _ => None
   end.
 
 (* the generator expression feeding OrderedDict: every piece of every signature in textual order;
